@@ -9,19 +9,10 @@ COMMON_TRUSTED = [
 
 PROPS = {}
 
-PROPS["C19"] = dict(
-    driver="c19",
-    props_file="Props/C19.v",
-    coq_targets=["Record/Check.vo"],
-    check_module="Record.Check",
-    check_fn="check_case",
-    streams=[dict(name="main", quick=240, thorough=6000)],
-    rule="histories of 4-18 (thorough: 4-44) steps = transactions of 1-4 create-record messages by 3 creators "
-         "(contents from a pool of 4 so byte-identical records recur; ~10% invalid messages) and block boundaries; "
-         "non-trivial = the same (creator, contents) is created at least twice; distinct = by hash of the history",
-    codes={0: "readback-or-duplicate-id"},
-    explain={0: "a query by a returned id did not return exactly the submitted record, or an id was returned twice"},
-    trusted_base=["SHA-256 modelled as injective: the id is identified with its pre-image (record bytes, counter); "
-                  "the harness checks on every creation that the real id is sha256 of exactly that pre-image"],
-    assumptions=["distinct transactions have distinct tx bytes (the harness numbers them)"],
-)
+import glob as _glob, os as _os, importlib.util as _ilu
+
+for _p in sorted(_glob.glob(_os.path.join(_os.path.dirname(_os.path.abspath(__file__)), "propsd", "*.py"))):
+    _spec = _ilu.spec_from_file_location("propsd_" + _os.path.basename(_p)[:-3], _p)
+    _m = _ilu.module_from_spec(_spec)
+    _spec.loader.exec_module(_m)
+    PROPS.update(getattr(_m, "PROPS", {}))
